@@ -103,4 +103,137 @@ theorem arrayOp_no_panic (m : Method) (ell : Bool) (val : Json) (idxStr : Bytes)
     (arrayOp m ell val idxStr arr).2 ≠ .panic := by
   cases m <;> simp only [arrayOp] <;> intro h <;> (repeat' split at h) <;> simp_all <;> omega
 
+theorem lastOp_notok {m : Method} {ell : Bool} {val : Json} {part : Bytes} {kvs : Obj} {child : Option Json}
+    (h : ∀ out, (lastOp m ell val part kvs child).2 ≠ .ok out) : (lastOp m ell val part kvs child).1 = .obj kvs := by
+  revert h
+  cases m <;> simp only [lastOp] <;> intro h <;> (repeat' split) <;> simp_all
+
+theorem lastOp_no_panic (m : Method) (ell : Bool) (val : Json) (part : Bytes) (kvs : Obj) (child : Option Json) :
+    (lastOp m ell val part kvs child).2 ≠ .panic := by
+  cases m <;> simp only [lastOp] <;> (repeat' split) <;> simp
+
+theorem arrayOp_notok {m : Method} {ell : Bool} {val : Json} {idxStr : Bytes} {arr : List Json}
+    (h : ∀ out, (arrayOp m ell val idxStr arr).2 ≠ .ok out) : (arrayOp m ell val idxStr arr).1 = arr := by
+  cases hr : (arrayOp m ell val idxStr arr).2 with
+  | ok out => exact absurd hr (h out)
+  | err e => exact arrayOp_err hr
+  | panic => exact absurd hr (arrayOp_no_panic m ell val idxStr arr)
+
+/-! unfolding equations of `trav`, one per arm -/
+
+theorem trav_nil (m : Method) (ell : Bool) (val : Json) (node : Json) : trav m ell val [] node = (node, .ok none) := by
+  cases node <;> rfl
+
+theorem trav_obj_special {m : Method} {ell : Bool} {val : Json} {part idxStr : Bytes} {kvs : Obj} {arr : List Json}
+    (h : lookup part kvs = some (.arr arr)) :
+    trav m ell val [part, idxStr] (.obj kvs) = inArrayDest part kvs (arrayOp m ell val idxStr arr) := by
+  rw [trav]; split <;> simp_all
+
+theorem trav_obj_last (m : Method) (ell : Bool) (val : Json) (part : Bytes) (kvs : Obj) :
+    trav m ell val [part] (.obj kvs) = lastOp m ell val part kvs (lookup part kvs) := by
+  rw [trav]; split <;> simp_all
+
+theorem trav_obj_mid {m : Method} {ell : Bool} {val : Json} {part a : Bytes} {b : List Bytes} {kvs : Obj}
+    (hns : ∀ arr, lookup part kvs = some (.arr arr) → b ≠ []) :
+    trav m ell val (part :: a :: b) (.obj kvs) =
+      if isNil (lookup part kvs) && m == .put then inNewObj part kvs (trav m ell val (a :: b) (.obj []))
+      else match lookup part kvs with
+        | none => (.obj kvs, .err .traversal)
+        | some c => inObj part kvs (trav m ell val (a :: b) c) := by
+  rw [trav]; split
+  · next arr idxStr hl heq => simp at heq; exact absurd heq.2 (hns arr hl)
+  · next h => simp at h
+  · next child x y h1 h2 => simp at h2; obtain ⟨rfl, rfl⟩ := h2; subst h1; rfl
+
+theorem trav_arr (m : Method) (ell : Bool) (val : Json) (part : Bytes) (rest : List Bytes) (xs : List Json) :
+    trav m ell val (part :: rest) (.arr xs) =
+      match atoi part with
+      | none => (.arr xs, .err .badIndex)
+      | some i =>
+        if i < 0 ∨ i ≥ xs.length then (.arr xs, .err .oob)
+        else match xs[i.toNat]? with
+          | none => (.arr xs, .panic)
+          | some c => inArr i.toNat xs (trav m ell val rest c) := by
+  rw [trav]
+
+theorem trav_scalar {m : Method} {ell : Bool} {val : Json} {part : Bytes} {rest : List Bytes} {node : Json}
+    (h1 : ∀ kvs, node ≠ .obj kvs) (h2 : ∀ xs, node ≠ .arr xs) :
+    trav m ell val (part :: rest) node = (node, .err .traversal) := by
+  cases node <;> simp_all [trav]
+
+/-- the three ways an object node is entered, as one case split -/
+theorem trav_obj_cases (m : Method) (ell : Bool) (val : Json) (part : Bytes) (rest : List Bytes) (kvs : Obj) :
+    (∃ arr idxStr, rest = [idxStr] ∧ lookup part kvs = some (.arr arr) ∧
+        trav m ell val (part :: rest) (.obj kvs) = inArrayDest part kvs (arrayOp m ell val idxStr arr)) ∨
+    (rest = [] ∧ trav m ell val (part :: rest) (.obj kvs) = lastOp m ell val part kvs (lookup part kvs)) ∨
+    (∃ a b, rest = a :: b ∧ (∀ arr, lookup part kvs = some (.arr arr) → b ≠ []) ∧
+        trav m ell val (part :: rest) (.obj kvs) =
+          if isNil (lookup part kvs) && m == .put then inNewObj part kvs (trav m ell val (a :: b) (.obj []))
+          else match lookup part kvs with
+            | none => (.obj kvs, .err .traversal)
+            | some c => inObj part kvs (trav m ell val (a :: b) c)) := by
+  cases rest with
+  | nil => exact Or.inr (Or.inl ⟨rfl, trav_obj_last ..⟩)
+  | cons a b =>
+    by_cases hs : ∃ arr, lookup part kvs = some (.arr arr) ∧ b = []
+    · obtain ⟨arr, hl, rfl⟩ := hs
+      exact Or.inl ⟨arr, a, rfl, hl, trav_obj_special hl⟩
+    · have hns : ∀ arr, lookup part kvs = some (.arr arr) → b ≠ [] := fun arr hl hb => hs ⟨arr, hl, hb⟩
+      exact Or.inr (Or.inr ⟨a, b, rfl, hns, trav_obj_mid hns⟩)
+
+/-- PUT below a map it has just made never fails -/
+theorem trav_put_fresh (ell : Bool) (val : Json) : ∀ (rest : List Bytes), rest ≠ [] →
+    (trav .put ell val rest (.obj [])).2 = .ok none
+  | [], h => absurd rfl h
+  | [p], _ => by simp [trav_obj_last, lookup, lastOp]
+  | p :: q :: r, _ => by
+    have ih := trav_put_fresh ell val (q :: r) (by simp)
+    rw [trav_obj_mid (by simp [lookup])]
+    simp [lookup, isNil, inNewObj, ih]
+
+/-- a call that does not return `nil` leaves the tree exactly as it was -/
+theorem trav_notok_pure (m : Method) (ell : Bool) (val : Json) : ∀ (parts : List Bytes) (node : Json),
+    (∀ out, (trav m ell val parts node).2 ≠ .ok out) → (trav m ell val parts node).1 = node := by
+  intro parts
+  induction parts with
+  | nil => intro node h; simp [trav_nil] at h
+  | cons part rest ih =>
+    intro node h
+    cases node with
+    | obj kvs =>
+      rcases trav_obj_cases m ell val part rest kvs with ⟨arr, idxStr, rfl, hl, heq⟩ | ⟨rfl, heq⟩ | ⟨a, b, rfl, hns, heq⟩
+      · rw [heq] at h ⊢
+        simp only [inArrayDest] at h ⊢
+        rw [arrayOp_notok h, replaceKey_self hl]
+      · rw [heq] at h ⊢
+        exact lastOp_notok h
+      · rw [heq] at h ⊢
+        split at h
+        · next hc =>
+          simp only [inNewObj] at h
+          have := trav_put_fresh ell val (a :: b) (by simp)
+          simp at hc
+          rw [hc.2] at h
+          exact absurd this (h none)
+        · split at h
+          · rfl
+          · next c hc =>
+            simp only [inObj] at h ⊢
+            rw [ih c h, replaceKey_self hc]
+    | arr xs =>
+      rw [trav_arr] at h ⊢
+      split at h
+      · rfl
+      · split at h
+        · rfl
+        · split at h
+          · rfl
+          · next c hc =>
+            simp only [inArr] at h ⊢
+            rw [ih c h, set_self hc]
+    | null => rw [trav_scalar (by simp) (by simp)]
+    | bool b => rw [trav_scalar (by simp) (by simp)]
+    | num t => rw [trav_scalar (by simp) (by simp)]
+    | str t => rw [trav_scalar (by simp) (by simp)]
+
 end CaddyModel.C12
